@@ -1116,7 +1116,16 @@ pub fn run(mut ctx: Ctx) -> ! {
         // part B: the real generated units and accessors
         let rc = real_ctx();
         let cases = ctx.tier.scale(20_000, 400_000);
-        ctx.run_tapes("real-units", cases, 60, |t| real_case(t, &rc));
+        let nt = std::cell::Cell::new((0u64, 0u64));
+        ctx.run_tapes("real-units", cases, 60, |t| {
+            let r = real_case(t, &rc);
+            if let Ok(info) = &r {
+                let (n, all) = nt.get();
+                nt.set((n + info.nontrivial as u64, all + 1));
+            }
+            r
+        });
+        ctx.set_extra("real_units_histories", json!({"evaluated": nt.get().1, "nontrivial (not deduplicated)": nt.get().0}));
     }
     ctx.finish(
         "generated cases: configuration (namespaced load_locales! enum: 1-3 namespaces x 1-4 locales, or flat declare_locales! \
